@@ -11,9 +11,10 @@ import (
 
 // Cond is one precondition parameter. K: unset | val | bad.
 // For val, Sym says how the value is chosen when the request is issued:
-//   lit (V as is), cur (the object's current generation/metageneration as last read back, or 12345 if absent),
-//   other (current+1: a value different from the current one), prev (an earlier generation of that name),
-//   zero, model (V is a generation number of the TLC model: translated through the replay's model->real table)
+//
+//	lit (V as is), cur (the object's current generation/metageneration as last read back, or 12345 if absent),
+//	other (current+1: a value different from the current one), prev (an earlier generation of that name),
+//	zero, model (V is a generation number of the TLC model: translated through the replay's model->real table)
 type Cond struct {
 	K   string `json:"k"`
 	V   int64  `json:"v"`
@@ -76,22 +77,29 @@ type Src struct {
 }
 
 type Resp struct {
-	Code       int    `json:"code"`
-	Hgen       int64  `json:"hgen"`
-	Hmetagen   int64  `json:"hmetagen"`
-	Hctype     j.B    `json:"hctype"`
-	View       View   `json:"view"`
-	HasView    bool   `json:"hasView"`
-	Body       j.B    `json:"body"`
-	Persisted  int    `json:"persisted"`
-	Done       bool   `json:"done"`
-	Rewritten  int    `json:"rewritten"`
-	ObjectSize int    `json:"objectSize"`
-	Pages      []Page `json:"pages"`
-	Ended      bool   `json:"ended"`
-	ErrJSON    bool   `json:"errJSON"`
-	Aborted    bool   `json:"aborted"`
-	Raw        string `json:"raw,omitempty"`
+	Code       int        `json:"code"`
+	Hgen       int64      `json:"hgen"`
+	Hmetagen   int64      `json:"hmetagen"`
+	Hctype     j.B        `json:"hctype"`
+	View       View       `json:"view"`
+	HasView    bool       `json:"hasView"`
+	Body       j.B        `json:"body"`
+	Persisted  int        `json:"persisted"`
+	Done       bool       `json:"done"`
+	Rewritten  int        `json:"rewritten"`
+	ObjectSize int        `json:"objectSize"`
+	Pages      []Page     `json:"pages"`
+	Parts      []PartResp `json:"parts"` // Batch: the sub-responses in the order received
+	Ended      bool       `json:"ended"`
+	ErrJSON    bool       `json:"errJSON"`
+	Aborted    bool       `json:"aborted"`
+	Raw        string     `json:"raw,omitempty"`
+}
+
+// PartResp is one sub-response of a batch.
+type PartResp struct {
+	Cid  j.B   `json:"cid"` // its Content-ID
+	Resp *Resp `json:"resp"`
 }
 
 type ObsObj struct {
@@ -154,6 +162,8 @@ type Op struct {
 	Form  string `json:"form,omitempty"`  // api | download | public
 	Slash bool   `json:"slash,omitempty"` // send '/' of the object name unescaped in the URL path
 
+	Parts   []Op  `json:"parts"` // Batch: the sub-requests (Delete, GetMeta, GetBucket, Patch), each with its Content-ID
+	Cid     j.B   `json:"cid"`
 	BadBody bool  `json:"badBody"`
 	Junk    bool  `json:"junk,omitempty"` // Patch: the body also carries output-only fields (generation, metageneration, size, ...) with stale values; they are not writable
 	Srcs    []Src `json:"srcs"`
@@ -174,15 +184,16 @@ type Op struct {
 var opFields = map[string][]string{
 	"Reset":          {},
 	"CreateBucket":   {"b"},
-	"GetBucket":      {"b"},
+	"GetBucket":      {"b", "cid"},
+	"Batch":          {"parts"},
 	"DeleteBucket":   {"b"},
 	"Upload":         {"b", "n", "proto", "gzip", "content", "md5", "decl", "attrs", "meta", "conds", "gen"},
 	"ResumableStart": {"b", "n", "decl", "attrs", "meta", "conds", "id"},
 	"ResumablePut":   {"id", "ref", "lo", "total", "data", "md5full", "gen", "method"},
 	"GetMedia":       {"b", "n", "form", "slash"},
-	"GetMeta":        {"b", "n", "slash"},
-	"Patch":          {"b", "n", "attrs", "meta", "conds", "badBody", "junk"},
-	"Delete":         {"b", "n", "conds"},
+	"GetMeta":        {"b", "n", "slash", "cid"},
+	"Patch":          {"b", "n", "attrs", "meta", "conds", "badBody", "junk", "cid"},
+	"Delete":         {"b", "n", "conds", "cid"},
 	"Compose":        {"b", "n", "srcs", "attrs", "meta", "conds", "gen"},
 	"Copy":           {"b", "n", "db", "dn", "gen"},
 	"List":           {"b", "prefix", "delim", "maxResults"},
